@@ -3,6 +3,8 @@ package main
 
 import (
 	"fmt"
+	"os"
+	"sort"
 	"strings"
 	"time"
 
@@ -207,6 +209,9 @@ func scenario(c conf, bound int) schk.Scenario {
 					}
 				}
 			}
+			// the order of the timeout callbacks of independent senders is not part of the property
+			// (nor of the happens-before state): canonical order in the outcome
+			sort.Ints(r.timeouts)
 			out := fmt.Sprintf("got=%v timeouts=%v new=%v closed=%v errs=%v", r.got, r.timeouts, newGot, r.closed, r.errs)
 			sync := strings.HasSuffix(c.variant, "Sync")
 			for _, e := range evs {
@@ -380,8 +385,136 @@ func main() {
 			}
 		}
 	}
+	if os.Getenv("VERIF_SHARD") == "" && os.Getenv("VERIF_REPLAY") == "" {
+		r.Set("sequential_family_calls", sequentialFamily(r))
+	}
 	schk.Main(r, scs, ev.Pick(r, 50*time.Second, 1500*time.Second), func(r *ev.Run) {
 		r.Set("rule", "controlled scheduler over the instrumented chans package (RWMutex with writer preference, WaitGroup, spawned sender goroutines, channels, select and timers are model objects): one publisher using each of the 6 publish variants (1 event, 2 for the Slice variants), 0-2 (3) subscribers with buffers {0,1} created through Sub/DefaultBuffer and SubBuf, timeout off / on with a recording OnPubTimeout, one receiver per subscription that keeps receiving until its channel is closed, and optionally a manager thread doing one of Unsub(sub0), UnsubAll, Sub, Unsub(unknown), Unsub(nil), WithOnly(sub0).PubSync, or a second publisher; executions run to quiescence (only receivers may remain blocked). Ledger oracle: per (event, subscriber) at most one delivery; every subscriber that stayed subscribed gets each event or, only with a timeout, one OnPubTimeout stands in for it; deliveries + timeouts never exceed the subscribers (and equal them without a manager); Sync variants in publication order; Wait/Sync return only after every hand-off or timeout callback is done; Unsub/UnsubAll close exactly the removed channels and return the documented errors; WithOnly reaches only the given subscription; no panic")
 		r.Assume("timers are untimed (may fire at any point after creation); 'eventually' for Pub/PubSlice means at quiescence of the closed driver")
 	})
+}
+
+// sequentialFamily: long single-goroutine Sub/Unsub/UnsubAll/publish histories with up to 70
+// subscriptions (pass-through mode, buffered subscriptions so nothing blocks), against a list
+// model: which channels are subscribed, which are closed, what each received.
+func sequentialFamily(r *ev.Run) int {
+	calls := 0
+	fail := func(format string, a ...any) {
+		r.Report(ev.Violation{Sig: "family|sequential", Msg: fmt.Sprintf(format, a...), Replay: map[string]any{"family": "sequential-history"}})
+	}
+	for _, n := range []int{1, 2, 3, 7, 15, 16, 17, 33, 70} {
+		n := n
+		func() {
+			defer func() {
+				if p := recover(); p != nil {
+					r.Report(ev.Violation{Sig: "family|panic", Msg: fmt.Sprintf("sequential history with %d subscriptions panicked: %v", n, p), Replay: map[string]any{"family": "sequential-history", "n": n}})
+				}
+			}()
+			ps := &chans.PubSub[int]{}
+			type sub struct {
+				ch     <-chan int
+				live   bool
+				expect []int
+			}
+			var subs []*sub
+			add := func(k int) {
+				for i := 0; i < k; i++ {
+					subs = append(subs, &sub{ch: ps.SubBuf(64), live: true})
+					calls++
+				}
+			}
+			pub := func(v int, how int) {
+				switch how % 3 {
+				case 0:
+					ps.PubSync(v)
+				case 1:
+					ps.PubWait(v)
+				default:
+					ps.PubSliceSync([]int{v})
+				}
+				calls++
+				for _, s := range subs {
+					if s.live {
+						s.expect = append(s.expect, v)
+					}
+				}
+			}
+			unsub := func(i int) {
+				err := ps.Unsub(subs[i].ch)
+				calls++
+				if subs[i].live && err != nil {
+					fail("n=%d: Unsub of a live subscription returned %v", n, err)
+				}
+				if !subs[i].live && err != chans.ErrAlreadyUnsubscribed {
+					fail("n=%d: Unsub of a subscription that was already removed returned %v, want ErrAlreadyUnsubscribed", n, err)
+				}
+				subs[i].live = false
+			}
+			check := func(what string) bool {
+				for i, s := range subs {
+					var got []int
+					closed := false
+					for done := false; !done; {
+						select {
+						case v, ok := <-s.ch:
+							if !ok {
+								closed, done = true, true
+							} else {
+								got = append(got, v)
+							}
+						default:
+							done = true
+						}
+					}
+					if fmt.Sprint(got) != fmt.Sprint(s.expect) || closed != !s.live {
+						fail("n=%d %s: subscription %d received %v (closed=%v), want %v (closed=%v)", n, what, i, got, closed, s.expect, !s.live)
+						return false
+					}
+					s.expect = nil
+				}
+				return true
+			}
+			add(n)
+			pub(1, 0)
+			ok := check("after the first publish")
+			for i := 0; ok && i < n; i += 3 {
+				unsub(i)
+			}
+			pub(2, 1)
+			ok = ok && check("after unsubscribing every third")
+			if ok {
+				unsub(0) // already removed
+				add(2)
+				pub(3, 2)
+				ok = check("after re-subscribing")
+			}
+			if ok {
+				if err := ps.UnsubAll(); err != nil {
+					fail("UnsubAll returned %v", err)
+				}
+				calls++
+				for _, s := range subs {
+					s.live = false
+				}
+				first := len(subs)
+				add(n)
+				pub(4, 0)
+				ok = check("after UnsubAll and new subscriptions")
+				for i := 0; ok && i < first; i += 2 {
+					unsub(i) // all removed by UnsubAll: must be ErrAlreadyUnsubscribed and touch nothing
+				}
+				unsub(first) // a live one
+				pub(5, 1)
+				ok = ok && check("after stale Unsubs")
+				only := ps.WithOnly(subs[len(subs)-1].ch)
+				only.PubSync(6)
+				calls++
+				if subs[len(subs)-1].live {
+					subs[len(subs)-1].expect = append(subs[len(subs)-1].expect, 6)
+				}
+				ok = ok && check("after WithOnly publish")
+			}
+		}()
+	}
+	return calls
 }
